@@ -52,7 +52,7 @@ MANIFEST = {
             'the halves.  File-based templates (File / HTMLFile) render as '
             'the string-based template of the text of their file, also with '
             'literal text beyond ASCII.',
-    'more': 'Also: chains of 3 (quick) / 3-4 (thorough) nested blocks over every combination of 8 block kinds with line ends after every tag; a try block whose else section fails.',
+    'more': 'Also: chains of 3 (quick) / 3-4 (thorough) nested blocks over every combination of 8 block kinds with line ends after every tag; a try block whose else section fails. Conditions whose answer changes with every evaluation; nameless entity fragments (&dtml.x-; &dtml-;) are text.',
     'note': 'Trusted: dtmc/lex.py (40 lines; the oracle is silent wherever '
             'it is not certain), dtmc/refsem.py and the printers of '
             'dtmc/ast.py.',
